@@ -1,7 +1,7 @@
 // Unit `repair`: what the blockstore keeps and announces for a block obtained through repair
 // (src/consensus/blockstore/slot_block_data.rs SlotBlockData::add_shred_from_repair).  Serves C14 (partial).
 use vstd::prelude::*;
-use std::collections::BTreeMap;
+use std::collections::{BTreeMap, BTreeSet};
 
 verus! {
 
@@ -154,6 +154,10 @@ pub open spec fn last_proven(h: BlockHash, slice: SliceIndex) -> bool {
 #[verifier::external_body] pub struct SharedPool { _p: () }
 #[verifier::external_body] pub struct EpochHandle { _p: () }
 #[verifier::external_body] pub struct OtherParts { _p: () }      // request_timeouts, network, sampler
+impl OtherParts {
+    // the repair requests handed to the network so far (each goes to up to three sampled peers), as a ghost log
+    pub uninterp spec fn requests_sent(&self) -> Seq<RepairRequestType>;
+}
 impl SharedBlockstore {
     // the (hash, shred) pairs handed to Blockstore::add_shred_from_repair so far
     pub uninterp spec fn stored(&self) -> Seq<(BlockHash, Shred)>;
@@ -314,6 +318,8 @@ pub struct Repair {
     pub slice_roots: BTreeMap<(BlockId, SliceIndex), SliceRoot>,
     pub last_slices: BTreeMap<BlockId, SliceIndex>,
     pub outstanding_requests: BTreeMap<Hash, RepairRequestType>,
+    // requests already retried because of a NACK since they were last sent on a timeout (finding F33)
+    pub nack_retried: BTreeSet<Hash>,
     pub other: OtherParts,
     pub epoch_info: EpochHandle,
 }
@@ -407,10 +413,12 @@ impl Repair {
             final(self).last_slices@ == old(self).last_slices@,
             final(self).blockstore.stored() == old(self).blockstore.stored(),
             final(self).epoch_info == old(self).epoch_info,
+            final(self).nack_retried@ == old(self).nack_retried@,
+            final(self).other.requests_sent() == old(self).other.requests_sent().push(req_type),
     { unimplemented!() }
 
 /*@ extract src/repair.rs :: impl Repair<N>/fn handle_response
-props C14 C15
+props C14 C15 C10
 elide-async
 rewrite*[R9] `block_id.clone()` => `verif_clone_block_id(block_id)`
 rewrite[R4] `for slice in last_slice.until() {` => `let mut verif_s: usize = 0; while verif_s <= last_slice.inner() { let slice = SliceIndex(verif_s); verif_s += 1;`
@@ -425,6 +433,19 @@ requires
 ensures
         final(self).inv(),
         final(self).epoch_info == old(self).epoch_info,
+        // [C10.repeated_nack_is_not_amplified] (finding F33) a NACK for a request that a NACK already made the node retry
+        // - the other peers asked in the same round, a duplicate, a forgery - sends nothing: NACKs cannot multiply requests
+        (response is Nack && old(self).nack_retried@.contains(spec_req_hash(response.req()))) ==>
+            final(self).other.requests_sent() == old(self).other.requests_sent() && final(self).nack_retried@ == old(self).nack_retried@,
+        // [C10.a_nack_causes_at_most_one_retry_and_is_remembered] the first NACK for an outstanding request is answered by one
+        // retry of exactly that request, and the request is marked (until its timeout fires, repair_loop) so the line above applies
+        (response is Nack && old(self).outstanding_requests@.contains_key(spec_req_hash(response.req()))) ==>
+            final(self).nack_retried@.contains(spec_req_hash(response.req()))
+            && (final(self).other.requests_sent() == old(self).other.requests_sent()
+                || final(self).other.requests_sent() == old(self).other.requests_sent().push(response.req())),
+        // [C10.unsolicited_nack_sends_nothing]
+        (response is Nack && !old(self).outstanding_requests@.contains_key(spec_req_hash(response.req()))) ==>
+            final(self).other.requests_sent() == old(self).other.requests_sent() && final(self).nack_retried@ == old(self).nack_retried@,
         // [C14.unsolicited_response_changes_nothing]
         !old(self).outstanding_requests@.contains_key(spec_req_hash(response.req())) ==>
             final(self).slice_roots@ == old(self).slice_roots@ && final(self).outstanding_requests@ == old(self).outstanding_requests@
@@ -494,6 +515,35 @@ loop 1
             self.last_slices@ == pre.last_slices@ && pre.last_slices@.contains_key(*block_id),
             self.blockstore.stored() == pre.blockstore.stored() && self.epoch_info == pre.epoch_info,
         decreases TOTAL_SHREDS - verif_x,
+@*/
+}
+
+impl Repair {
+/*@ extract-stmts src/repair.rs :: impl Repair<N>/fn repair_loop
+props C10 C14
+elide-async
+from `let Some(Reverse((_, hash))) = self.request_timeouts.pop() else {`
+to `warn!("sending timed-out repair request failed: {err}"); } }`
+wrap fn verif_on_timeout(&mut self, popped: Option<Hash>)
+rewrite[stmt-range-param] `let Some(Reverse((_, hash))) = self.request_timeouts.pop() else { continue; };` => `let Some(hash) = popped else { return; };`
+requires
+        old(self).inv(),
+ensures
+        final(self).inv(),
+        popped is None ==> final(self).other.requests_sent() == old(self).other.requests_sent() && final(self).nack_retried@ == old(self).nack_retried@
+            && final(self).outstanding_requests@ == old(self).outstanding_requests@,
+        // [C10.timeout_clears_the_nack_mark] (finding F33) the mark that silences further NACKs never outlives the timeout period of
+        // the request: afterwards a NACK is again answered by one immediate retry
+        popped matches Some(h) ==> final(self).nack_retried@ == old(self).nack_retried@.remove(h),
+        // [C14.timed_out_request_is_sent_again_and_stays_outstanding]
+        popped matches Some(h) ==> (old(self).outstanding_requests@.contains_key(h) ==>
+            final(self).other.requests_sent() == old(self).other.requests_sent().push(old(self).outstanding_requests@[h])
+            && final(self).outstanding_requests@ == old(self).outstanding_requests@),
+        // ... and the timeout of a request that was answered in the meantime sends nothing
+        popped matches Some(h) ==> (!old(self).outstanding_requests@.contains_key(h) ==>
+            final(self).other.requests_sent() == old(self).other.requests_sent()
+            && final(self).outstanding_requests@ == old(self).outstanding_requests@),
+        final(self).slice_roots@ == old(self).slice_roots@ && final(self).last_slices@ == old(self).last_slices@,
 @*/
 }
 
